@@ -114,7 +114,9 @@ def nsw_on_time(fn, argnames):
                     changed = True
     for blk in fn.order:
         for i in blk.insts:
-            if i.op in ("sub", "add") and i.get("nsw") and all((o.k in ("arg", "inst")) and o.name in derived for o in i.ops):
+            # (a signed operation in a type wider than the times cannot overflow on two extended 32-bit values)
+            if i.op in ("sub", "add") and i.get("nsw") and i.ty in ("i32", "i16", "i8") and \
+                    all((o.k in ("arg", "inst")) and o.name in derived for o in i.ops):
                 bad.append(i)
     return bad
 
